@@ -22,6 +22,11 @@ CLAIMED = {
   "Known findings K2/K3 (both MakeFunc callbacks gate on a captured frame's id) are printed as KNOWN-FINDING; they are genuine defects whose repair needs a design decision (it conflicts with stopping callbacks entered by goroutines running at the time of the cancel).",
   "go/cfg dominance + SSA provenance of the id operand", "DESIGN.md §2 C10"),
 
+ "C12": ("other",
+  "Structural clauses of 'rejected before anything runs': Execute dominated by the nil branch of the compile error (SSA dominance); importSrc never returns from execution to compilation; nothing reachable from CompileAST reaches the execution functions (static call graph); error discipline of the compile passes (no implicit discard, explicit discards only from a reviewed table, no error definition overwritten by a possibly-nil one before being read: reaching definitions on go/cfg over every error variable of every compile-pass function); every typecheck method reachable from the cfg pass. The predicates inside the type rules are NOT decided: a loosened assignableTo/convertibleTo is invisible to this check, and 'the well-typed program is never rejected' is not decided.",
+  "Known finding K1 (imported source packages are initialised while the importer is still compiled) printed as KNOWN-FINDING. Two overwrite sites are frozen exceptions with their reason in the checker (c12Overwrites).",
+  "call-graph reachability + SSA dominance + reaching-definitions dataflow on go/cfg (error discipline lint)", "DESIGN.md §2 C12"),
+
  "C17": ("other",
   "Static agreement of yaegi's file-selection code with the go/build reference sources: OS/arch table key sets, the tag conditions of matchTag, //go:build support, gating of read/parse by the verdict on every go/cfg path, orientation of the release comparison. Necessary structural conditions of the property; the boolean evaluation of arbitrary constraint lines is not decided.",
   "Trusted: go/types, go/cfg, GOROOT/src/go/build of the installed toolchain as the reference. Known findings K8/K9 (unix and implied-OS tags, //go:build lines) are printed as KNOWN-FINDING.",
